@@ -1243,3 +1243,31 @@ def r_dst_operator_never_dispatched(ck, P, rid='C02-R31'):
                 ck.violation(R, f.name, 'DST looked up like any operator', '%s looks a composite routine up for whatever operator the optimiser returned (%s), DST included: with the whole-operation no-op routine disabled the general path fetches the destination and stores it back, which is not the identity for indexed (and other lossy) destination formats - the destination differs from what every other implementation leaves' % (f.name, c.loc()), c.loc())
     if n == 0:
         raise AnalysisBroken('%s: no lookup of an optimised operator found' % rid)
+
+
+def r_rectangles_taken_after_the_last_intersection(ck, P, rid='C03-R18'):
+    """T-ORD: pixman_region32_rectangles hands out a pointer into the region (its extents for a single rectangle, its data block otherwise)
+    together with a count.  Any later operation on the region may free that block or change the count: the list is taken after the last
+    intersection, never before one."""
+    R = ck.rule(rid, 'in every exported drawing function that intersects a local region and then walks its rectangles, no path leads from the call that takes the rectangle list (pixman_region32_rectangles on that region) to a later intersection of the same region: a list taken before the clip was applied is the unclipped one - for several boxes a freed array, for one box with a multi-rectangle clip the bounding box, gaps included', floor=1)
+    n = 0
+    for f in common.public_api(P):
+        for c in f.calls():
+            if not (isinstance(c.callee, str) and c.callee in ('pixman_region32_rectangles', 'pixman_region_rectangles')):
+                continue
+            reg = f.root(f.path(c.a[0]))
+            if reg[0] != 'alloca':
+                continue
+            def later_intersection(q):
+                return q.op == 'call' and isinstance(q.callee, str) and 'intersect' in q.callee and q.a and f.root(f.path(q.a[0])) == reg
+            if not any(later_intersection(q) for q in f.insts()):
+                continue
+            n += 1; ck.saw(f)
+            hit = f.reach_avoiding(c, lambda q: False, later_intersection)
+            where = '%s: rectangle list taken at %s' % (f.name, c.loc())
+            if hit is None:
+                ck.ok(R, where, 'after the last intersection')
+            else:
+                ck.violation(R, f.name, 'rectangle list taken before an intersection', '%s takes the rectangle list of its local region (%s) and intersects the region afterwards (%s): the list that is then walked is the one from before the intersection - pixels outside the destination clip are filled, or a freed array is read' % (f.name, c.loc(), hit.loc()), c.loc())
+    if n == 0:
+        raise AnalysisBroken('%s: no exported function takes the rectangles of a local region it intersects' % rid)
